@@ -54,3 +54,62 @@ Print Assumptions C07_errors_only.
 (* non-vacuity: the definitions run on a concrete input with a recorded LP table *)
 Example C07_nonvacuous : poly_simplify (table_oracle 0 ex_tbl) ex_ts (Some ex_ctx) = inl [mkT [("x"%string,1);("y"%string,1)] 1].
 Proof. exact simplify_runs. Qed.
+
+(* ==== T1 tie (LP / numpy) ==== *)
+Require Import PyDict PyLoop PyTermList PyNumpy TermGen TermListGen PolyGen PolyGenBase PolyGenPolytope PolyGenReduce PolyGenFacts.
+(* T1 tie: termlist_to_polytope, polytope_to_termlist, reduce_polytope (its while loop on fuel n, shown sufficient) and simplify of polyhedra.py as translated ON THIS RUN (gen/PolyGen.v; numpy arrays as A1/A2 values with named np_* primitives, linprog as the oracle behind scipy's input validation, poly_lp O) ARE model/Poly.v, about which the theorems above speak. proofs/PolyGen*.v *)
+Theorem C07_code_simplify :
+  forall (O : oracle) (self : list pterm) (context_ : option (list pterm)),
+       @Forall pterm wft' self ->
+       @Forall pterm wft' (@opt_list pterm context_) ->
+       canon_terms self -> @PolyhedralTermList_simplify (poly_lp O) self context_ = poly_simplify O self context_.
+Proof. exact @simplify_eq. Qed.
+Print Assumptions C07_code_simplify.
+Theorem C07_code_simplify_fuel :
+  forall (O : oracle) (self : list pterm) (context_ : option (list pterm)),
+       @Forall pterm wft' self ->
+       @Forall pterm wft' (@opt_list pterm context_) ->
+       canon_terms self ->
+       @PolyhedralTermList_simplify (poly_lp O) self context_ <> @raise (list pterm) (Escape "fuel").
+Proof. exact @simplify_fuel_suffices. Qed.
+Print Assumptions C07_code_simplify_fuel.
+Theorem C07_code_reduce_polytope :
+  forall (O : oracle) (vs : list var) (rows : list row) (ctx : list (list Q * Q)),
+       vs <> [] ->
+       @Forall row (row_ok (@Datatypes.length var vs)) rows ->
+       @PolyhedralTermList_reduce_polytope (poly_lp O) vs
+         (mat_of (@Datatypes.length var vs) (@map (list Q * Q) (list Q) (@fst (list Q) Q) rows))
+         (@A1 Q (@map (list Q * Q) Q (@snd (list Q) Q) rows))
+         (@Some ndarray (ctx_mat_of (@Datatypes.length var vs) (@map (list Q * Q) (list Q) (@fst (list Q) Q) ctx)))
+         (@Some ndarray (@A1 Q (@map (list Q * Q) Q (@snd (list Q) Q) ctx))) =
+       @mmap (list row) (ndarray * ndarray) (reduced (@Datatypes.length var vs) rows) (reduce_polytope O vs rows ctx).
+Proof. exact @reduce_polytope_eq. Qed.
+Print Assumptions C07_code_reduce_polytope.
+Theorem C07_code_reduce_polytope_novars :
+  forall (O0 : oracle) (ns cx : list pterm),
+       @PolyhedralTermList_reduce_polytope (poly_lp O0) [] (mat_of 0 (@map pterm (list Q) (fun _ : pterm => []) ns))
+         (@A1 Q (@map pterm Q tconst ns))
+         (@Some ndarray (ctx_mat_of 0 (@map pterm (list Q) (fun _ : pterm => []) cx)))
+         (@Some ndarray (@A1 Q (@map pterm Q tconst cx))) =
+       (if @existsb pterm (fun t : pterm => qlt (tconst t) 0) cx
+        then @raise (ndarray * ndarray) ValueErr
+        else
+         match ns with
+         | [] => @ret (ndarray * ndarray) (@A1 Q [], @A1 Q [])
+         | [t] => @ret (ndarray * ndarray) (@A2 Q 0 [[]], @A1 Q [tconst t])
+         | t :: _ :: _ => @raise (ndarray * ndarray) ValueErr
+         end).
+Proof. exact @reduce_polytope_novars. Qed.
+Print Assumptions C07_code_reduce_polytope_novars.
+Theorem C07_code_termlist_to_polytope :
+  forall terms ctx : list pterm, PolyhedralTermList_termlist_to_polytope terms ctx = ret (polytope_of terms ctx).
+Proof. exact @termlist_to_polytope_eq. Qed.
+Print Assumptions C07_code_termlist_to_polytope.
+Theorem C07_code_polytope_to_termlist :
+  forall (vs : list var) (rows : list row),
+       NoDup vs ->
+       Forall (fun r : list Q * Q => Datatypes.length (fst r) = Datatypes.length vs) rows ->
+       PolyhedralTermList_polytope_to_termlist (A2 (Datatypes.length vs) (map fst rows)) (A1 (map snd rows)) vs =
+       ret (map (row_to_term vs) rows).
+Proof. exact @polytope_to_termlist_eq. Qed.
+Print Assumptions C07_code_polytope_to_termlist.
